@@ -6,10 +6,10 @@ package main
 // with the reason why it does not take part.
 
 import (
-	"go/token"
-	"os"
 	"fmt"
+	"go/token"
 	"go/types"
+	"os"
 	"sort"
 	"strings"
 
@@ -558,7 +558,6 @@ func symmetrySig(fn *ssa.Function, pa, pb *ssa.Parameter, la, lb string) []strin
 	sort.Strings(out)
 	return out
 }
-
 
 type symCand struct {
 	Fn     *ssa.Function
